@@ -92,8 +92,11 @@ PROPS = {
 # Every property is stated "for every input / history": a result that depends on process-wide mutable state (a cache
 # keyed by equality, a registry, a mutable default) depends on what the process did before, whatever the property is
 # about.  The inventory of such state (analyses/global_state.py) is therefore an obligation of every check.
+# The same holds for the frame of the rebuild call graph (analyses/purity.py): every property observes documents through
+# rebuild() - a rebuild that writes into the document makes the second observation differ from the first.
 for _p in PROPS.values():
     _a = list(_p.get("analyses") or [])
-    if "analyses.global_state" not in _a:
-        _a.append("analyses.global_state")
+    for _m in ("analyses.global_state", "analyses.purity"):
+        if _m not in _a:
+            _a.append(_m)
     _p["analyses"] = _a
